@@ -1,6 +1,9 @@
 """C01 - table views are re-iterable and their iterators are mutually independent."""
 import itertools
 
+import petl as etl
+from petl.util.materialise import cache as petl_cache
+
 from hypothesis import strategies as st
 
 from pv import catalog, catgen, codec, gen
@@ -46,11 +49,26 @@ def _targets():
 TARGETS = _targets()
 
 
+# optional upstream stage applied to every source before the entry is built: the view under schedule is then a
+# small *program* whose inner views carry their own caches / spill files
+UPSTREAM = {
+    "none": lambda t, tmp: t,
+    "cache": lambda t, tmp: petl_cache(t),
+    "cache_n": lambda t, tmp: petl_cache(t, n=2),
+    "sort_chunk": lambda t, tmp: etl.sort(t, buffersize=2, tempdir=tmp),
+    "sort_nocache": lambda t, tmp: etl.sort(t, buffersize=2, tempdir=tmp, cache=False),
+    "select": lambda t, tmp: etl.select(t, lambda r: True),
+    "fromdicts_gen": lambda t, tmp: etl.fromdicts((dict(zip(t[0], r)) for r in t[1:] if len(r) == len(t[0])), header=list(t[0])),
+}
+
+
 def _norm(e):
     return ITERABLE_NONVIEWS.get(e.name, tuple)
 
 
-def _build(e, S, variant, tmp, res=None):
+def _build(e, S, variant, tmp, res=None, upstream="none"):
+    if upstream != "none":
+        S = [UPSTREAM[upstream](t, tmp) for t in S]
     kw = dict(VARIANTS[variant])
     if kw and tmp is not None:
         kw["tempdir"] = tmp
@@ -67,8 +85,9 @@ def _case(draw, tier, targets):
     # slot 0 and 1 are favoured so that two iterators are usually live together
     acts = draw(st.lists(st.tuples(st.sampled_from(["adv", "adv", "adv", "adv", "adv", "adv", "adv", "new", "drop"]),
                                    st.sampled_from([0, 1, 0, 1, 2])), min_size=n, max_size=n))
+    up = draw(st.sampled_from(["none", "none", "none"] + sorted(UPSTREAM))) if (e.n >= 1 and not e.has("file") and not e.cells) else "none"
     return {"entry": name, "variant": variant, "sources": S, "schedule": [list(a) for a in acts],
-            "fresh": draw(st.integers(1, 2))}
+            "fresh": draw(st.integers(1, 2)), "upstream": up}
 
 
 def case(tier, shard=0, nshards=1):
@@ -82,16 +101,17 @@ def run_schedule(case, ctx):
     e = catalog.get(case["entry"])
     variant = case["variant"]
     norm = _norm(e)
-    tmp = ctx.tmpdir() if (e.has("file") or e.has("sorted")) else None
-    ctx.label("entry:" + e.name, "variant:" + variant)
+    up = case.get("upstream", "none")
+    tmp = ctx.tmpdir() if (e.has("file") or e.has("sorted") or up.startswith("sort")) else None
+    ctx.label("entry:" + e.name, "variant:" + variant, "upstream:" + up)
     # the solo pass of an identically built view over separately copied sources
     res = e.prepare(codec.snapshot(case["sources"]), tmp) if e.has("file") else None
     try:
-        solo = [norm(r) for r in _build(e, codec.snapshot(case["sources"]), variant, tmp, res)]
+        solo = [norm(r) for r in _build(e, codec.snapshot(case["sources"]), variant, tmp, res, up)]
     except Exception as ex:
         ctx.label("rejected:" + type(ex).__name__)  # totality is not C01's business
         return None
-    view = _build(e, codec.snapshot(case["sources"]), variant, tmp, res)
+    view = _build(e, codec.snapshot(case["sources"]), variant, tmp, res, up)
     its = {}
     live_max = 0
     last = None
